@@ -674,7 +674,7 @@ Qed.
 
 Theorem step_inv st e st' : CInvG st None -> step st e = ROk st' -> CInvG st' None.
 Proof.
-  intros H. destruct e as [c adm|c b totals|order|s b|c|s| |s|nodes newslots|ch]; cbn [step].
+  intros H. destruct e as [c adm|c b totals|order|s b|c|s| |s|nodes newslots|ch|da dd]; cbn [step].
   - destruct (lookup c (clients st)) as [cl|] eqn:Hl; intro E; inversion E; subst; [exact H|].
     destruct H as [H1 H2]. split; [|exact H2].
     intros c' cl' Hl'. cbn [set_client clients] in Hl'. rewrite lookup_update in Hl'.
@@ -695,6 +695,7 @@ Proof.
     + eapply CInvG_same; [exact Hcm | exact H].
   - intro E. inversion E; subst. eapply CInvG_same; [|exact H]. repeat split.
   - intro E. inversion E; subst. eapply CInvG_same; [apply same_cm_set_choices | exact H].
+  - intro E. inversion E; subst. eapply CInvG_same; [apply same_cm_set_pools | exact H].
 Qed.
 
 Theorem run_inv evs : forall st st', CInvG st None -> run st evs = ROk st' -> CInvG st' None.
